@@ -257,6 +257,11 @@ def parentGis (f : Faults) (root : Node) (p : Path) : List GiEntry × Bool :=
   let ds := properPrefixes p
   (ds.map (giOfDir f root), ds.any fun d => f.openFail (d ++ [".gitignore"]))
 
+/-- the kind `fs.Stat` reports: links are followed -/
+def statKind : Kind → Kind
+  | .symlink => .reg
+  | k => k
+
 /-- one iteration of `walkIndividualPaths` -/
 def walkRequested (c : Cfg) (f : Faults) (s : St) (root : Node) (p : Path) : St × Err :=
   if f.statFail p then fserrCall c s else
@@ -272,10 +277,11 @@ def walkRequested (c : Cfg) (f : Faults) (s : St) (root : Node) (p : Path) : St 
       let (s, e) := walkFrom c f s root p
       ({ s with gis := [] }, e)
   | some (.file k sz) =>
+    -- `fs.Stat` follows links: a requested symlink is handled as the (regular) file it points to
     let (s, e) := prologue c s
     match e with
     | some e => (s, e)
-    | none => let (s, e) := handleLeaf c f s p k sz; (s, e.getD .none)
+    | none => let (s, e) := handleLeaf c f s p (statKind k) sz; (s, e.getD .none)
 
 def walkPaths (c : Cfg) (f : Faults) (root : Node) : St → List Path → St × Err
   | s, [] => (s, .none)
